@@ -468,7 +468,12 @@ func c15Overlap(r *vlib.Run) {
 		}
 		r.Max("overlap_max_outfile_writes_in_one_run", interims)
 		if res.TimedOut || res.Exit != 0 {
-			r.Violation("reference-run-failed", map[string]interface{}{"scenario": sc.Name, "exit": res.Exit, "stderr": vlib.Trunc(string(res.Stderr), 1500)})
+			content, err := os.ReadFile(out)
+			if st, why := c15Classify(content, err == nil, header, nil, newSet); st == "bad" {
+				r.Violation("outfile-half-written", map[string]interface{}{"scenario": sc.Name, "kill_point": "none (the run failed by itself)", "why": why, "bytes": len(content)})
+			}
+			r.Inconclusive("reference-run-failed:" + sc.Name)
+			fmt.Printf("NOTE property=C15 scenario=%s run failed (exit %d): %s\n", sc.Name, res.Exit, vlib.Trunc(string(res.Stderr), 300))
 			return
 		}
 		content, err := os.ReadFile(out)
@@ -580,7 +585,11 @@ func c15Scenario1(r *vlib.Run, sc c15Scenario, maxPoints int) {
 	res, evs := c15Run(r, base, sc, gen, "", watch, nil)
 	r.Count("watcher_samples", int(watched))
 	if res.TimedOut || res.Exit != 0 {
-		r.Violation("reference-run-failed", map[string]interface{}{"scenario": sc.Name, "exit": res.Exit, "stderr": vlib.Trunc(string(res.Stderr), 1500)})
+		// a client that fails outright is not this property's subject as long as what it leaves at the outfile path
+		// is sound; the kill points of such a run cannot be enumerated: cannot decide
+		judge("reference", before, "none (the run failed by itself)")
+		r.Inconclusive("reference-run-failed:" + sc.Name)
+		fmt.Printf("NOTE property=C15 scenario=%s reference run failed (exit %d): %s\n", sc.Name, res.Exit, vlib.Trunc(string(res.Stderr), 300))
 		return
 	}
 	judge("reference", before, "none (complete run)")
